@@ -13,8 +13,8 @@
 (*          (v1: the action of its single-key chord, 0 = none defined)       *)
 (*   part   Seq(code): keys that take part in chords                         *)
 (*   chords Seq([ks, o, u, T, first, dis]): key set (>= 2 keys), the action  *)
-(*          (a distinct output key o, or o = 0 and a unicode character u -   *)
-(*          an action whose every performance is visible), timeout, release  *)
+(*          (a distinct output key o, and/or a unicode character u - an     *)
+(*          output that shows every performance; "" = none), timeout, release *)
 (*          rule (v2 first-release; v1: FALSE), disabled layers (v2)         *)
 (*   red    rapid-event-delay;  minidle  chords-v2-min-idle                  *)
 (*   lkey   0 or the key that holds layer 1 (layer-while-held)               *)
@@ -52,7 +52,7 @@ DropAt(s, i) == SubSeq(s, 1, i - 1) \o SubSeq(s, i + 1, Len(s))
 IndOut(p, c) == LET i == FirstIdx(p.keys, LAMBDA k : k.c = c) IN IF i = 0 THEN 0 ELSE p.keys[i].o
 KeyOfOut(p, o) == LET i == FirstIdx(p.keys, LAMBDA k : k.o = o /\ o # 0) IN IF i = 0 THEN 0 ELSE p.keys[i].c
 ChordOfOut(p, o) == FirstIdx(p.chords, LAMBDA ch : ch.o = o /\ o # 0)
-ChordOfUni(p, u) == FirstIdx(p.chords, LAMBDA ch : ch.u = u /\ ch.o = 0)
+ChordOfUni(p, u) == FirstIdx(p.chords, LAMBDA ch : ch.u = u /\ u # "")
 IsPart(p, c) == InSeq(p.part, c)
 EnabledOn(ch, lay) == ~InSeq(ch.dis, lay)
 MaxT(p) == LET S == {p.chords[i].T : i \in DOMAIN p.chords} \cup {p.T} IN CHOOSE t \in S : \A u \in S : t >= u
@@ -82,7 +82,7 @@ MonInit(p) ==
   [p |-> p,
    pend |-> <<>>,     \* presses not yet accounted for, in arrival order: [c, xr, ly, sk, age, hid]
                       \*   xr = keys released (input) since this press arrived; hid = chord that may have consumed it unseen
-   acts |-> <<>>,     \* chord actions currently held: [ci, rem, all, chk, due, tag]
+   acts |-> <<>>,     \* chord actions currently held: [ci, rem, all, chk, due, tag, useen]
    gst |-> "none",    \* sharp group: "none" | "open"
    g |-> <<>>,        \* its presses in arrival order
    el |-> 0,          \* ticks since its first press arrived
@@ -119,7 +119,7 @@ MonIn(m, r) ==
                     !.pend = [i \in DOMAIN @ |-> [@[i] EXCEPT !.ly = 0 - 1]],
                     !.gst = "none", !.g = <<>>]
     ELSE IF r.e = "d"
-    THEN LET m1 == [m0 EXCEPT !.pend = Append(@, [c |-> c, xr |-> {}, ly |-> m.lay, sk |-> FALSE, age |-> 0, hid |-> 0]),
+    THEN LET m1 == [m0 EXCEPT !.pend = Append(@, [c |-> c, xr |-> {}, ly |-> m.lay, sk |-> FALSE, age |-> 0, hid |-> 0, dup |-> FALSE]),
                               !.sp = IF m.acts # <<>> THEN 0 ELSE @]
          IN IF m.gst = "none"
             THEN IF Settled(m) /\ IsPart(p, c) /\ m.lay >= 0 /\ (p.ver = 1 \/ CanExtend(p, {c}, m.lay))
@@ -147,11 +147,15 @@ MonIn(m, r) ==
 ExpOk(m, o, u) == m.exp = <<>> \/ (Head(m.exp).o = o /\ Head(m.exp).u = u)
 PopExp(m) == IF m.exp = <<>> THEN m ELSE [m EXCEPT !.exp = Tail(@), !.expLeft = 0 - 1]
 
+\* the press of key k an observed activation consumes: the oldest one that was not possibly consumed unseen
+PickIdx(pend, k) == LET i == FirstIdx(pend, LAMBDA e : e.c = k /\ e.hid = 0) IN
+                    IF i # 0 THEN i ELSE FirstIdx(pend, LAMBDA e : e.c = k)
+
 ActivateChord(m, ci) ==
   LET p == m.p
       ch == p.chords[ci]
       S == KS(ch)
-      idx(k) == FirstIdx(m.pend, LAMBDA e : e.c = k)
+      idx(k) == PickIdx(m.pend, k)
       missing == \E k \in S : idx(k) = 0
       I == {idx(k) : k \in S}
       lys == {m.pend[i].ly : i \in I}
@@ -162,7 +166,9 @@ ActivateChord(m, ci) ==
       late == \E a \in ages : a >= ch.T
       fromExp == m.exp # <<>>
       keep == SelectSeq([i \in DOMAIN m.pend |-> [e |-> m.pend[i], i |-> i]], LAMBDA x : x.i \notin I)
-      pend1 == [i \in DOMAIN keep |-> keep[i].e]
+      \* a further press of a participant that was already pending when the chord fired (only used to name the site
+      \* if that press is then swallowed)
+      pend1 == [i \in DOMAIN keep |-> IF keep[i].e.c \in S /\ p.ver = 2 THEN [keep[i].e EXCEPT !.dup = TRUE] ELSE keep[i].e]
       rem == S \ xr0
   IN IF missing
      THEN IF m.last.ci = ci /\ m.last.viaRel
@@ -177,10 +183,33 @@ ActivateChord(m, ci) ==
      ELSE LET m1 == PopExp([m EXCEPT !.pend = pend1, !.last = [ci |-> ci, viaRel |-> viaRel, late |-> late]]) IN
           IF ch.o = 0 THEN m1
           ELSE [m1 EXCEPT !.acts = Append(@, [ci |-> ci, rem |-> rem, all |-> S,
-                                             chk |-> (p.ver = 2 \/ (fromExp /\ m.expDef)), due |-> 0, tag |-> FALSE])]
+                                             chk |-> (p.ver = 2 \/ (fromExp /\ m.expDef)), due |-> 0, tag |-> FALSE,
+                                             useen |-> FALSE])]
+
+\* a chord whose action is a key and a unicode character: the key shows how long the action is held, the character
+\* shows every performance (a second activation while the key is down does not press the key again)
+UniOfKeyChord(m, ci) ==
+  LET j == FirstIdx(m.acts, LAMBDA a : a.ci = ci /\ ~a.useen)
+      S == KS(m.p.chords[ci])
+  IN IF j # 0 THEN [m EXCEPT !.acts[j].useen = TRUE]
+     ELSE IF \A k \in S : PickIdx(m.pend, k) # 0
+     THEN \* a further activation for fresh presses while the key is still down
+          LET I == {PickIdx(m.pend, k) : k \in S}
+              oldest == CHOOSE i \in I : \A i2 \in I : i <= i2
+              xr0 == m.pend[oldest].xr \cap S
+              keep == SelectSeq([i \in DOMAIN m.pend |-> [e |-> m.pend[i], i |-> i]], LAMBDA x : x.i \notin I)
+              a0 == FirstIdx(m.acts, LAMBDA a : a.ci = ci)
+              m1 == [m EXCEPT !.pend = [i \in DOMAIN keep |-> keep[i].e],
+                              !.last = [ci |-> ci, viaRel |-> xr0 # {}, late |-> \E i \in I : m.pend[i].age >= m.p.chords[ci].T]]
+          IN IF a0 = 0 THEN m1 ELSE [m1 EXCEPT !.acts[a0].rem = S \ xr0, !.acts[a0].due = 0]
+     ELSE IF m.last.ci = ci /\ m.last.viaRel
+     THEN Fail(m, "C09 H1: chord action performed twice for one set of presses [a participant was released before the chord fired]")
+     ELSE IF m.last.ci = ci /\ m.last.late
+     THEN Fail(m, "C09 H1: chord action performed twice for one set of presses [the last participant arrived at the end of the window]")
+     ELSE Fail(m, "C09 H1: chord action performed without a fresh press of each of its keys")
 
 Individual(m, kc, o) ==
-  LET i == FirstIdx(m.pend, LAMBDA e : e.c = kc) IN
+  LET i == PickIdx(m.pend, kc) IN
   IF i = 0
   THEN Fail(m, "C09 H1: individual output of a key without a fresh press (a participant of a fired chord, or delivered twice)")
   ELSE IF m.pend[i].sk
@@ -215,7 +244,9 @@ Scan(m, out) ==
                   ELSE Scan(m, Tail(out))
           ELSE IF e[1] = "U"
           THEN LET ci == ChordOfUni(p, e[2]) IN
-               IF ci # 0 THEN Scan(ActivateChord(m, ci), Tail(out)) ELSE Scan(m, Tail(out))
+               IF ci = 0 THEN Scan(m, Tail(out))
+               ELSE IF p.chords[ci].o = 0 THEN Scan(ActivateChord(m, ci), Tail(out))
+               ELSE Scan(UniOfKeyChord(m, ci), Tail(out))
           ELSE IF e[1] = "u"
           THEN LET ci == ChordOfOut(p, e[2]) IN
                IF ci # 0 THEN Scan(ReleaseChord(m, ci), Tail(out)) ELSE Scan(m, Tail(out))
@@ -246,8 +277,8 @@ MonTick(m, out, idle, cb) ==
         \* ---- 2b. v2: while a chord's output key is down, a further activation of the same chord is invisible at the OS
         \* level; presses that may have been consumed that way are marked and no longer claimed
         hidFor(mm, a) == LET S == a.all IN
-                         IF \A k \in S : \E i \in DOMAIN mm.pend : mm.pend[i].c = k /\ mm.pend[i].hid \in {0, a.ci}
-                         THEN {FirstIdx(mm.pend, LAMBDA e : e.c = k /\ e.hid \in {0, a.ci}) : k \in S} ELSE {}
+                         IF \A k \in S : \E i \in DOMAIN mm.pend : mm.pend[i].c = k /\ mm.pend[i].hid = 0
+                         THEN {FirstIdx(mm.pend, LAMBDA e : e.c = k /\ e.hid = 0) : k \in S} ELSE {}
         hidIdx == IF p.ver = 1 THEN [i \in {} |-> 0]
                   ELSE [i \in UNION {hidFor(m3a, m3a.acts[j]) : j \in DOMAIN m3a.acts} |->
                           LET J == {j \in DOMAIN m3a.acts : i \in hidFor(m3a, m3a.acts[j])} IN m3a.acts[CHOOSE j \in J : TRUE].ci]
@@ -269,7 +300,9 @@ MonTick(m, out, idle, cb) ==
                    THEN Fail(m3, "C09 H3: chord action still held after all its participants were released [released shortly after another key press: chords-v2-min-idle]")
                    ELSE Fail(m3, "C09 H3: chord action still held after its release condition")
               ELSE IF settledNow /\ \E i \in DOMAIN m3.pend : IndOut(p, m3.pend[i].c) # 0 /\ m3.pend[i].hid = 0
-              THEN Fail(m3, "C09 H4: a pressed key was swallowed (neither a chord nor its own action accounts for it)")
+              THEN IF \A i \in DOMAIN m3.pend : (IndOut(p, m3.pend[i].c) # 0 /\ m3.pend[i].hid = 0) => m3.pend[i].dup
+                   THEN Fail(m3, "C09 H4: a pressed key was swallowed [a further press of a chord key, queued when the chord fired, was dropped with the consumed presses]")
+                   ELSE Fail(m3, "C09 H4: a pressed key was swallowed (neither a chord nor its own action accounts for it)")
               ELSE [m3 EXCEPT !.acts = acts1,
                               !.expLeft = IF @ > 0 THEN @ - 1 ELSE @,
                               !.pend = IF settledNow THEN <<>> ELSE @]
